@@ -17,7 +17,10 @@ cp "$D/demo_test.go" "$DEMO"
 NAME=$(grep -o "func Test[A-Za-z0-9_]*" "$DEMO" | head -1 | sed 's/func //')
 base=$(go test -vet=off -count=1 -run "^$NAME\$" "$PKG" 2>&1 | tail -1 | cut -c1-60)
 rm -f "$DEMO"
-if ! patch -p1 -s --no-backup-if-mismatch < "$D/patch.diff" >/dev/null 2>&1; then echo "$ID PATCH-DOES-NOT-APPLY"; exit 0; fi
+if ! patch -p1 -s --no-backup-if-mismatch < "$D/patch.diff" >/dev/null 2>&1; then
+  cd /; rm -rf "$WT"; mkdir -p "$WT"; rsync -a --exclude .git /repo/ "$WT/"; cd "$WT"
+  if [ ! -f "$D/patch.rebased.diff" ] || ! patch -p1 -s --no-backup-if-mismatch < "$D/patch.rebased.diff" >/dev/null 2>&1; then echo "$ID PATCH-DOES-NOT-APPLY"; exit 0; fi
+fi
 if ! go build ./... >/dev/null 2>&1; then echo "$ID BUILD-FAILS"; exit 0; fi
 suite=$(go test -vet=off -count=1 ./... 2>&1 | grep -c "^FAIL\|^--- FAIL\|^panic:")
 cp "$D/demo_test.go" "$DEMO"
